@@ -79,3 +79,227 @@ class C16Check(ExplainerCheck):
 
 
 CHECKS = [C15Check, C16Check]
+
+
+# ----------------------------------------------------------------------------------------------
+# C17: fault enumeration
+# ----------------------------------------------------------------------------------------------
+
+EXCS = ["InjectedFault", "InjectedFault", "InjectedFault", "KeyError", "ZeroDivisionError", "AttributeError",
+        "ValueError", "TypeError", "IndexError", "StopIteration", "RuntimeError"]
+
+
+def callout_bound(cfg, k, rows=4):
+    e = cfg["explainers"][k]
+    d = len(cfg["names"])
+    n = 4
+    if e["cls"] in ("pfi", "sage"):
+        return 4 + d * (1 + 2 * n) + 1
+    return 3 + rows * (1 + d * (2 + n))
+
+
+def prestore_ops(rng, cfg, builder):
+    """Make every storage non-empty before the schedule starts, so that a failed call never leaves a later
+    estimating step on an empty storage (that would be a second, natural fault hiding the first)."""
+    for sid in range(len(cfg["storages"])):
+        builder.store(("explicit", sid))
+    for k, e in enumerate(cfg["explainers"]):
+        if "storage" not in e:
+            builder.store(("own", k))
+
+
+def small_base(rng, cls):
+    """A small deployment for exhaustive crash-point enumeration."""
+    arith = "exact" if rng.random() < 0.8 else "float"
+    d = rng.randint(1, 3)
+    from .plan import gen_names, gen_model, gen_loss
+    names, nk = gen_names(rng, d)
+    model = gen_model(rng, d, arith, allow=("linear", "hash", "multi"))
+    loss = gen_loss(rng, arith, model)
+    n_inner = rng.randint(1, 2)
+    storages, imputers = [], []
+    e = {"cls": cls, "n_inner": n_inner}
+    if cls in ("pfi", "sage"):
+        storages.append({"kind": rng.choice(["batch", "uniform", "geometric", "interval"]), "size": rng.randint(1, 3)})
+        if storages[0]["kind"] == "batch":
+            storages[0].pop("size")
+        e["storage"] = 0
+        ik = rng.choice(["marginal-joint", "marginal-product", "stub", "default", "absent"])
+        if ik.startswith("marginal"):
+            imputers.append({"kind": "marginal", "strategy": ik.split("-")[1], "storage": 0})
+            e["imputer"] = 0
+        elif ik == "stub":
+            imputers.append({"kind": "stub", "seed": rng.getrandbits(32)})
+            e["imputer"] = 0
+        elif ik == "default":
+            imputers.append({"kind": "default"})
+            e["imputer"] = 0
+        e["dynamic"] = rng.random() < 0.5
+        if e["dynamic"]:
+            e["alpha"] = rng.choice([[1, 2], [1, 3], [1, 10], [1, 1]])
+        if cls == "sage" and rng.random() < 0.5:
+            e["lbib"] = True
+    elif cls == "interval":
+        e["interval_length"] = rng.randint(1, 2)
+        e["storage_length"] = rng.randint(1, 3)
+        if rng.random() < 0.5:
+            storages.append({"kind": "interval", "size": e["storage_length"], "targets": True})
+            e["storage"] = 0
+            if rng.random() < 0.5:
+                imputers.append({"kind": "marginal", "strategy": "joint", "storage": 0})
+                e["imputer"] = 0
+    else:
+        if rng.random() < 0.5:
+            storages.append({"kind": "batch", "targets": True})
+            e["storage"] = 0
+            if rng.random() < 0.5:
+                imputers.append({"kind": "marginal", "strategy": "product", "storage": 0})
+                e["imputer"] = 0
+    if arith == "exact" and loss["family"] == "hash" and cls in ("pfi", "sage") and e.get("dynamic") and "alpha" not in e:
+        loss["family"] = "sq"
+    cfg = {"arith": arith, "names": names, "names_kind": nk, "seed": rng.getrandbits(32), "values": "unique",
+           "model": model, "loss": loss, "storages": storages, "imputers": imputers, "explainers": [e],
+           "rng": "perop"}
+    b = Builder(rng, cfg)
+    prestore_ops(rng, cfg, b)
+    pos = rng.choice([2, 3, 3, 4])
+    for _ in range(pos - 1):
+        b.explain(0, allow_us_false=False, p_override=0.0)
+        if rng.random() < 0.3:
+            b.add({"op": "learn"})
+    target = b.explain(0, allow_us_false=False, p_override=0.0)
+    target_index = len(b.ops) - 1
+    for _ in range(rng.randint(2, 4)):
+        if rng.random() < 0.3:
+            b.add({"op": "learn"})
+        b.explain(0, allow_us_false=False, p_override=0.0)
+        if rng.random() < 0.4:
+            b.add({"op": "observe", "e": 0})
+    d_ = len(names)
+    if cls in ("pfi", "sage"):
+        K = 3 + d_ * (1 + 2 * n_inner) + 2
+    else:
+        rows = min(pos + 1, 4)
+        K = 3 + rows * (1 + d_ * (2 + n_inner)) + 1
+    return cfg, b.ops, target_index, K
+
+
+class C17Check(ExplainerCheck):
+    prop = "C17"
+    level = "fault_enumeration"
+    oracle_classes = (C17Oracle,)
+    design_ref = "DESIGN.md section 4, C17"
+    n_base = {"quick": 40, "thorough": 400}
+    n_random = {"quick": 2000, "thorough": 100000}
+    rule = ("enumerated part: for each of N small base deployments (10 per explainer class at the quick tier) one run per "
+            "crash point k = 1..K, the k-th call-out of any kind (model, loss, imputer, storage) inside a chosen "
+            "estimating explain_one raises; random part: seeded (configuration, schedule, up to 3 faulted operations, "
+            "call-out kind, k, exception type, consecutive faults, natural empty-storage faults). Non-trivial = at least "
+            "one fault actually fired; distinct = distinct seam-history digest")
+
+    def __init__(self):
+        self._tables = {}
+
+    def table(self, seed, tier):
+        key = (seed, tier)
+        t = self._tables.get(key)
+        if t is None:
+            t = []
+            classes = ["pfi", "sage", "batch", "interval"]
+            for j in range(self.n_base[tier]):
+                rng = seeds.run_rng(seed, self.prop + "/base", tier, j)
+                cfg, ops, ti, K = small_base(rng, classes[j % 4])
+                for k in range(1, K + 1):
+                    t.append((j, k))
+            self._tables[key] = t
+        return t
+
+    def n_runs(self, tier):
+        return len(self.table(seeds.verif_seed(), tier)) + self.n_random[tier]
+
+    def gen(self, seed, tier, run_index):
+        table = self.table(seed, tier)
+        if run_index < len(table):
+            j, k = table[run_index]
+            rng = seeds.run_rng(seed, self.prop + "/base", tier, j)
+            classes = ["pfi", "sage", "batch", "interval"]
+            cfg, ops, ti, K = small_base(rng, classes[j % 4])
+            ops = copy.deepcopy(ops)
+            ops[ti]["fault"] = {"kind": "any", "k": k, "exc": EXCS[(j + k) % len(EXCS)]}
+            strip_private(cfg)
+            return {"property": self.prop, "kind": "explainer", "config": cfg, "ops": ops, "rs0": 1,
+                    "enumerated": {"base": j, "k": k, "K": K}}
+        rng = seeds.run_rng(seed, self.prop, tier, run_index)
+        style = wchoice(rng, [("incremental", 60), ("batch", 20), ("natural", 20)])
+        if style == "batch":
+            cfg = gen_batch_config(rng)
+            b = Builder(rng, cfg)
+            prestore_ops(rng, cfg, b)
+            pre = b.ops
+            ops = pre + gen_batch_schedule(rng, cfg)
+        else:
+            cfg = gen_world_config(rng, "mixed")
+            b = Builder(rng, cfg)
+            if style == "incremental":
+                prestore_ops(rng, cfg, b)
+            pre = b.ops
+            ops = pre + gen_schedule(rng, cfg)
+        if style == "natural":
+            # estimating steps on an empty storage raise on their own (random.randrange(0)): declare them
+            k = rng.randrange(len(cfg["explainers"]))
+            e = cfg["explainers"][k]
+            if e["cls"] in ("pfi", "sage"):
+                head = [{"op": "explain", "e": k, "tag": 900, "us": False, "rs": rng.getrandbits(48)},
+                        {"op": "explain", "e": k, "tag": 901, "us": False, "rs": rng.getrandbits(48), "expect_raise": True},
+                        {"op": "explain", "e": k, "tag": 902, "us": False, "rs": rng.getrandbits(48), "expect_raise": True}]
+                b2 = Builder(rng, cfg)
+                b2.next_tag = 950
+                prestore_ops(rng, cfg, b2)
+                ops = head + b2.ops + ops
+        # inject faults into explain operations
+        idxs = [i for i, op in enumerate(ops) if op["op"] == "explain" and not op.get("expect_raise")]
+        rng.shuffle(idxs)
+        n_f = wchoice(rng, [(1, 50), (2, 30), (3, 20)])
+        chosen = sorted(idxs[:n_f])
+        if chosen and rng.random() < 0.3 and chosen[0] + 1 < len(ops):
+            # consecutive faults: also fault the next explain operation after the first chosen one
+            nxt = [i for i in idxs if i > chosen[0]]
+            if nxt:
+                chosen.append(min(nxt))
+        for i in set(chosen):
+            op = ops[i]
+            kind = wchoice(rng, [("any", 40), ("model", 20), ("loss", 20), ("imputer", 10), ("storage", 10)])
+            bound = callout_bound(cfg, op["e"])
+            if kind == "storage":
+                kk = 1
+            elif kind == "imputer":
+                kk = rng.randint(1, len(cfg["names"]) * 4)
+            elif kind == "any":
+                kk = rng.randint(1, bound)
+            else:
+                kk = rng.randint(1, max(1, bound // 2))
+            if rng.random() < 0.5:
+                kk = max(1, min(kk, rng.randint(1, 6)))      # bias to early call-outs, which always exist
+            op["fault"] = {"kind": kind, "k": kk, "exc": rng.choice(EXCS)}
+        strip_private(cfg)
+        return {"property": self.prop, "kind": "explainer", "config": cfg, "ops": ops, "rs0": rng.getrandbits(48)}
+
+    def nontrivial(self, res):
+        return sum(res.get("faults_fired", {}).values()) > 0 or any(k.startswith("fault:") for k in res.get("probes", {}))
+
+    def reductions(self, plan):
+        out = []
+        # drop faults one at a time, then the generic structural reductions
+        for i, op in enumerate(plan["ops"]):
+            if "fault" in op:
+                p = copy.deepcopy(plan)
+                del p["ops"][i]["fault"]
+                out.append(p)
+                if op["fault"].get("exc", "InjectedFault") != "InjectedFault":
+                    p = copy.deepcopy(plan)
+                    p["ops"][i]["fault"]["exc"] = "InjectedFault"
+                    out.append(p)
+        return out + super().reductions(plan)
+
+
+CHECKS = [C15Check, C16Check, C17Check]
